@@ -69,7 +69,7 @@ class Web(object):
         hs.update(headers or {})
         raw = ("%s %s HTTP/1.1\r\n" % (method, path)).encode("utf-8")
         for k, v in hs.items():
-            raw += ("%s: %s\r\n" % (k, v)).encode("utf-8")
+            raw += k.encode("ascii") + b": " + (v if isinstance(v, bytes) else str(v).encode("utf-8")) + b"\r\n"
         raw += b"\r\n" + body
         proto.dataReceived(raw)
         sched = self.g.sched
